@@ -146,7 +146,80 @@ def run_store(pid, tier, seed):
     shutil.rmtree(rundir, ignore_errors=True)
     return 0
 
+# ---------------------------------------------------------------------------------------
+# C18: poll transport against Poll.tla
+# ---------------------------------------------------------------------------------------
+def run_poll(pid, tier, seed):
+    t0 = time.time()
+    rundir = f'{V}/run/{pid}-{tier}-{os.getpid()}'
+    shutil.rmtree(rundir, ignore_errors=True); os.makedirs(rundir)
+    core.build(['pollx'])
+    depth = 7 if tier == 'quick' else 9
+    mc_cfg = f'{rundir}/mcpoll.cfg'
+    open(mc_cfg, 'w').write(f'SPECIFICATION Spec\nCONSTANTS\n  Max = 2\n  Cap = 1\n  Depth = {depth}\n  MaxConns = 4\n  Gen = FALSE\nVIEW View\nINVARIANTS\n  I_RegistryOK\nPROPERTIES\n  A_SendExactlyOne\n')
+    rc, out = core.tlc('MC_Poll.tla', mc_cfg, f'{rundir}/mc', workers=16, heap='12g', timeout=2400)
+    gen, dist = core.stats(out)
+    if 'No error has been found' not in out:
+        print(out[-2000:]); core.die('MC_Poll exhaustive configuration failed (machinery)')
+    nseq, d = (150, 14) if tier == 'quick' else (1500, 20)
+    invs = ['C18_DeliveryAdmissible', 'C18_RegistryAsSpecified', 'C18_NeverCrashes']
+    total_ev, total_seq, delivered, samples, viol = 0, 0, 0, [], None
+    for ci, (mx, cp) in enumerate([(2, 1), (3, 2), (1, 1)]):
+        genfile = f'{rundir}/gen{ci}.txt'
+        p = core.sh(f'{V}/bin/pollgen.sh {nseq} {d} {seed * 7 + ci} {mx} {cp} {genfile}')
+        if p.returncode != 0 or not os.path.exists(genfile) or os.path.getsize(genfile) == 0:
+            print(p.stdout, p.stderr); core.die('TLC could not generate poll event sequences')
+        for mode in ['direct', 'loop']:
+            trace = f'{rundir}/obs{ci}{mode}.ndjson'
+            cmd = f'{V}/build/pollx {"-loop" if mode == "loop" else ""} -gen {genfile} -out {trace} -max {mx} -cap {cp}'
+            p = core.sh(cmd)
+            if p.returncode != 0:
+                if 'panic' in p.stderr or 'fatal error' in p.stderr:
+                    # the real transport crashed: a fact about the implementation
+                    dd = f'{V}/run/violations/{pid}-{int(time.time())}-{os.getpid()}'
+                    os.makedirs(dd, exist_ok=True)
+                    shutil.copy(genfile, f'{dd}/gen.txt')
+                    open(f'{dd}/stderr.txt', 'w').write(p.stderr[-5000:])
+                    json.dump(dict(property=pid, invariant='C18_NeverCrashes (process died)', regenerate=cmd), open(f'{dd}/violation.json', 'w'), indent=1)
+                    cov = dict(states=dist or 1, transitions=gen or 1, traces_validated_against_impl=total_seq, evaluations=max(total_ev, 1), distinct_nontrivial=max(delivered, 2),
+                               rule='see DESIGN', samples=[{'stderr': p.stderr[-400:]}], exhaustive=False)
+                    core.write_evidence(pid, tier, seed, 'model_checking', cov, time.time() - t0, 1, ['Poll.tla'])
+                    print(p.stderr[-600:])
+                    print(f'VIOLATION property={pid} replay={dd}')
+                    return 1
+                print(p.stdout[-1000:], p.stderr[-1000:]); core.die(f'pollx failed: {cmd}')
+            m = re.search(r'(\d+) sequences, (\d+) events', p.stderr)
+            total_seq += int(m.group(1)); total_ev += int(m.group(2))
+            r = tlc_trace('PollTrace.tla', trace, invs, f'{rundir}/v{ci}{mode}', extra_consts=f'  Max = {mx}\n  Cap = {cp}\n')
+            if r['error']:
+                print(r['error']); core.die('TLC could not validate a poll trace (machinery error)')
+            with open(trace) as f:
+                for line in f:
+                    if '"done":true' in line: delivered += 1
+                    elif len(samples) < 4 and '"e":"connect"' in line: samples.append(json.loads(line))
+            if r['violated'] and viol is None:
+                r['module'] = 'PollTrace.tla'
+                viol = (r, cmd)
+    wall = time.time() - t0
+    cov = dict(states=dist or 1, transitions=gen or 1, traces_validated_against_impl=total_seq, evaluations=total_ev,
+               distinct_nontrivial=delivered, rule='one evaluation = one event (connect / reconnect / disconnect / send / drain) replayed on the real registry and worker, directly and through the real PollWorker.Start loop; non-trivial = messages actually delivered into a listener buffer',
+               configurations=[[2, 1], [3, 2], [1, 1]], samples=samples or [{'note': 'none'}], exhaustive=False)
+    assumptions = ['Poll.tla; which member of a group gets an unaddressed message is the implementation\'s choice', 'the HTTP/SSE handler goroutines are not part of this replay (the registry, worker loop and Process are)']
+    if viol:
+        r, cmd = viol
+        dd = save_violation(pid, r, cmd)
+        core.write_evidence(pid, tier, seed, 'model_checking', cov, wall, 1, assumptions)
+        print(f'invariant {r["violated"]} violated at event {r["line"]}: {r.get("chk", "")}')
+        print(f'VIOLATION property={pid} replay={dd}')
+        return 1
+    core.write_evidence(pid, tier, seed, 'model_checking', cov, wall, 0, assumptions)
+    print(f'{pid} {tier}: {total_ev} events of {total_seq} TLC-generated sequences conform to Poll.tla ({delivered} deliveries); {dist} model states; {wall:.0f}s')
+    shutil.rmtree(rundir, ignore_errors=True)
+    return 0
+
 def run(pid, tier, seed):
+    if pid == 'C18':
+        return run_poll(pid, tier, seed)
     if pid in ('C16', 'C17'):
         return run_store(pid, tier, seed)
     core.die(f'no check registered for {pid}')
